@@ -58,6 +58,7 @@ type lcClient struct {
 	Starts        []startRec
 	Offered       []net.Conn // every work conn this client opened
 	offClosed     map[net.Conn]bool
+	syncSeq       int
 	ReqSeen       []time.Duration
 	natSids       int
 	NatSidList    []string   // session ids handed to this client's xtcp proxies
@@ -410,4 +411,16 @@ func portOf(remoteAddr string) int {
 func jsonStr(v any) string {
 	b, _ := json.Marshal(v)
 	return string(b)
+}
+
+// syncStrong waits until the server has processed everything this client sent before: a registration of an
+// unsupported proxy type under a unique name is answered (with an error) in order by the session's dispatcher.
+// Unlike a ping/pong pair it cannot be satisfied by the answer to an earlier heartbeat.
+func (c *lcClient) syncStrong() bool {
+	c.smu.Lock()
+	c.syncSeq++
+	name := fmt.Sprintf("verif-sync-%s-%d", c.Name, c.syncSeq)
+	c.smu.Unlock()
+	_, ok := c.NewProxy(M{"proxy_name": name, "proxy_type": "verifsync"}, 30*time.Second)
+	return ok
 }
